@@ -6,6 +6,8 @@ import (
 	"time"
 
 	sdk "github.com/cosmos/cosmos-sdk/types"
+
+	st "github.com/irismod/service/types"
 )
 
 func defaultParams() ParamSet {
@@ -529,4 +531,39 @@ func scModReentrant(ps ParamSet, tmpls []Template, o AlphaOpts, depth, blocks, m
 	sc.Name = "S-MOD(reentrant)"
 	sc.Rig.Reentrant = true
 	return sc
+}
+
+// ---------------------------------------------------------------------------------------------
+// S-FX: the host chain has a token module (prices may be published in a main unit, "kilo" = 1000 stake, or in a foreign
+// token, "usd" = 100 cent) and an exchange-rate module service ("oracle"). P1 is priced in usd, P2 in stake, P3 in kilo.
+// The rate cent->stake alternates with the height (0.03 at even heights, 0.015 at odd ones); at height failAt the
+// exchange-rate service has no answer.
+
+var (
+	tFxOne  = Template{Name: "fxone", Consumer: "C1", Service: "a", Providers: []string{"P1", "P2"}, Cap: 5, Timeout: 1}
+	tFxRep  = Template{Name: "fxrep", Consumer: "C1", Service: "a", Providers: []string{"P1"}, Cap: 5, Timeout: 1, Repeated: true, Freq: 1, Total: 3}
+	tFxMix  = Template{Name: "fxmix", Consumer: "C1", Service: "a", Providers: []string{"P2", "P1", "P3"}, Cap: 2, Timeout: 1, Repeated: true, Freq: 2, Total: -1}
+	tFxPoor = Template{Name: "fxpoor", Consumer: "C2", Service: "a", Providers: []string{"P1"}, Cap: 5, Timeout: 1, Repeated: true, Freq: 1, Total: 2}
+)
+
+func fxSpec(failAt ...int64) *FXSpec {
+	return &FXSpec{Rates: map[string][]string{"cent-stake": {"0.03", "0.015"}}, FailAt: failAt}
+}
+
+func scFX(ps ParamSet, p1pricing string, tmpls []Template, o AlphaOpts, fx *FXSpec, depth, blocks, msgs int) *Scenario {
+	install := Action{Name: "install(oracle-price)", Kind: "install", Tmpl: -1, Signer: XX,
+		Mod: func(ctx sdk.Context, k servicekeeperT) error {
+			k.SetServiceDefinition(ctx, st.GenOraclePriceSvcDefinition())
+			return k.SetServiceBindingForGenesis(ctx, st.GenOraclePriceSvcBinding(denom))
+		}}
+	return &Scenario{
+		Name: "S-FX(" + p1pricing + ")", Params: ps,
+		Rig:   RigConfig{FX: fx},
+		Funds: []Funding{{O1, 200}, {O2, 200}, {C1, 12}, {C2, 2}}, Extra: allAccounts,
+		Setup: []Action{install, actDefine("a", "AU"),
+			actBind("a", "P1", "O1", 10, p1pricing, 1), actBind("a", "P2", "O2", 10, "p1", 1), actBind("a", "P3", "O2", 10, "fkilo2", 1)},
+		Templates: tmpls,
+		Alpha:     lifeAlpha(o),
+		Depth:     depth, MaxBlocks: blocks, MaxMsgs: msgs,
+	}
 }
